@@ -1,7 +1,9 @@
 package parser
 
 import (
+	"errors"
 	"fmt"
+	"strings"
 
 	"github.com/antlr4-go/antlr/v4"
 )
@@ -11,6 +13,9 @@ type Evaluator struct {
 
 	rule string
 	tree antlr.ParseTree
+	// syntaxErr is set when the rule text is not a sentence of the grammar;
+	// it is reported by Process
+	syntaxErr error
 
 	testHookPanic func()
 }
@@ -24,19 +29,37 @@ func NewEvaluator(rule string) (ret *Evaluator, retErr error) {
 			retErr = fmt.Errorf("%q", info)
 		}
 	}()
-	input := antlr.NewInputStream(rule)
+	input := antlr.NewInputStream(strings.TrimSpace(rule))
+	errs := &syntaxErrorListener{}
 	lex := NewJsonQueryLexer(input)
 	lex.RemoveErrorListeners()
+	lex.AddErrorListener(errs)
 	tokens := antlr.NewCommonTokenStream(lex, antlr.TokenDefaultChannel)
 	p := NewJsonQueryParser(tokens)
-	// TODO: maybe log properly
 	p.RemoveErrorListeners()
+	p.AddErrorListener(errs)
 	tree := p.Query()
+	if errs.err == nil && tokens.LA(1) != antlr.TokenEOF {
+		errs.err = errors.New("Invalid rule: unexpected input after the end of the rule")
+	}
 
 	return &Evaluator{
-		rule: rule,
-		tree: tree,
+		rule:      rule,
+		tree:      tree,
+		syntaxErr: errs.err,
 	}, nil
+}
+
+// syntaxErrorListener remembers the first lexical or syntax error
+type syntaxErrorListener struct {
+	*antlr.DefaultErrorListener
+	err error
+}
+
+func (l *syntaxErrorListener) SyntaxError(_ antlr.Recognizer, _ interface{}, line, column int, msg string, _ antlr.RecognitionException) {
+	if l.err == nil {
+		l.err = fmt.Errorf("Invalid rule: line %d:%d %s", line, column, msg)
+	}
 }
 
 func (e *Evaluator) Reset() error {
@@ -60,6 +83,9 @@ func (e *Evaluator) Process(items map[string]interface{}) (ret bool, retErr erro
 		}
 	}()
 
+	if e.syntaxErr != nil {
+		return false, e.syntaxErr
+	}
 	visitor := NewJsonQueryVisitorImpl(items)
 	result := visitor.Visit(e.tree)
 	e.lastDebugErr = visitor.debugErr
